@@ -32,6 +32,10 @@
 #include <sys/un.h>
 #include <sys/stat.h>
 #include <fcntl.h>
+#ifdef NANOLANG_VERIF
+#include <sched.h>
+#include <stdint.h>
+#endif
 
 /* ========================================================================
  * Globals
@@ -143,6 +147,23 @@ typedef struct {
     bool verbose;
 } ClientCtx;
 
+#ifdef NANOLANG_VERIF
+/* verification hook H3: seeded yield points between the steps of a session, so that
+ * concurrent sessions overlap in many different ways ($NLVERIF_YIELD_US = max sleep) */
+static void verif_yield(int point) {
+    const char *y = getenv("NLVERIF_YIELD_US");
+    if (!y) return;
+    unsigned max_us = (unsigned)atoi(y);
+    if (max_us == 0) { sched_yield(); return; }
+    const char *sd = getenv("NLVERIF_YIELD_SEED");
+    unsigned seed = (unsigned)(uintptr_t)pthread_self() * 2654435761u + (unsigned)point * 40503u + (sd ? (unsigned)atoi(sd) : 0u);
+    usleep((useconds_t)(rand_r(&seed) % (max_us + 1)));
+}
+#define VERIF_YIELD(p) verif_yield(p)
+#else
+#define VERIF_YIELD(p) ((void)0)
+#endif
+
 static void *client_thread(void *arg) {
     ClientCtx *ctx = arg;
     int fd = ctx->client_fd;
@@ -199,6 +220,7 @@ static void *client_thread(void *arg) {
             break;
         }
 
+        VERIF_YIELD(1);
         /* Deserialize */
         NvmModule *module = nvm_deserialize(blob, hdr.payload_len);
         free(blob);
@@ -229,7 +251,9 @@ static void *client_thread(void *arg) {
             vm.isolate_ffi = true;
         }
 
+        VERIF_YIELD(2);
         VmResult result = vm_execute(&vm);
+        VERIF_YIELD(3);
 
         /* Flush any remaining output */
         if (sock_out) fflush(sock_out);
@@ -250,6 +274,7 @@ static void *client_thread(void *arg) {
         }
 
         vmd_msg_send_exit(fd, exit_code);
+        VERIF_YIELD(4);
 
         if (vm.isolate_ffi) vm_ffi_cop_stop(&vm);
         vm_destroy(&vm);
